@@ -1,62 +1,123 @@
+from typing import NamedTuple, List, Union
+
 from excel2pycl.src.context import Context
 from excel2pycl.src.excel import Excel
+from excel2pycl.src.exceptions import E2PyclParserException
 from excel2pycl.src.tokens import ExpressionToken, AmpersandToken, DateControlConstructionToken, \
     TodayControlConstructionToken, EqOperatorToken, NotEqOperatorToken, GtOperatorToken, GtOrEqualOperatorToken, \
-    LtOperatorToken, LtOrEqualOperatorToken, PercentToken, OneLeftOperandExpressionToken
+    LtOperatorToken, LtOrEqualOperatorToken, OneLeftOperandExpressionToken, PlusOperatorToken, MinusOperatorToken, \
+    MultiplicationOperatorToken, DivOperatorToken, OneOperandArithmeticOperatorToken, BracketStartToken, \
+    RegexpBaseToken, OperandToken
 from excel2pycl.src.translators.abstract_translator import AbstractTranslator
+
+
+class _Operand(NamedTuple):
+    signs: List[RegexpBaseToken]
+    token: Union[OperandToken, OneLeftOperandExpressionToken, ExpressionToken]
+    brackets: bool
+
+
+class _Operation(NamedTuple):
+    operator: RegexpBaseToken
+    left: Union[_Operand, '_Operation']
+    right: Union[_Operand, '_Operation']
 
 
 class ExpressionTokenTranslator(AbstractTranslator):
     _DATE_TOKENS = [DateControlConstructionToken, TodayControlConstructionToken]
+    _COMPARE_TOKENS = (EqOperatorToken, NotEqOperatorToken, GtOperatorToken, GtOrEqualOperatorToken,
+                       LtOperatorToken, LtOrEqualOperatorToken)
+    # binary operators of Excel from the weakest to the strongest, operators of one level are grouped from left to right
+    _LEVELS = (_COMPARE_TOKENS, (AmpersandToken,), (PlusOperatorToken, MinusOperatorToken),
+               (MultiplicationOperatorToken, DivOperatorToken))
 
     @classmethod
     def translate(cls, token: ExpressionToken | OneLeftOperandExpressionToken, excel: Excel, context: Context) -> str:
+        if isinstance(token, OneLeftOperandExpressionToken):
+            return cls._translate_tree(_Operand([], token, False), excel, context)
+
+        return cls._translate_tree(cls._group(token), excel, context)
+
+    @classmethod
+    def _level(cls, operator: RegexpBaseToken) -> int:
+        for level, tokens in enumerate(cls._LEVELS):
+            if isinstance(operator, tokens):
+                return level
+
+        raise E2PyclParserException('Undefined operator', operator)
+
+    @classmethod
+    def _group(cls, token: ExpressionToken) -> _Operand | _Operation:
+        """
+        The grammar nests an expression to the right: `a - b - c` is read as `a`, `-` and the expression `b - c`.
+        Regroups this chain of operands according to the precedence of the Excel operators.
+        """
+        tree, pending = None, {}
+
+        while token:
+            signs = []
+            while token.value[0].__class__ is OneOperandArithmeticOperatorToken:
+                signs.append(token.value[0].operator)
+                token = token.value[1]
+
+            if token.value[0].__class__ is BracketStartToken:
+                tree, rest = _Operand(signs, token.value[1], True), token.value[3:]
+            else:
+                tree, rest = _Operand(signs, token.value[0], False), token.value[1:]
+
+            operator, token = (rest[0].operator, rest[1]) if rest else (None, None)
+            level = cls._level(operator) if operator else -1
+
+            # the operand closes every waiting operation that is not weaker than the following operator
+            for pending_level in sorted(pending, reverse=True):
+                if pending_level >= level:
+                    left, pending_operator = pending.pop(pending_level)
+                    tree = _Operation(pending_operator, left, tree)
+
+            pending[level] = tree, operator
+
+        return tree
+
+    @classmethod
+    def _is_percentage(cls, tree: _Operand | _Operation) -> bool:
+        if isinstance(tree, _Operand):
+            return isinstance(tree.token, OneLeftOperandExpressionToken)
+
+        return cls._level(tree.operator) >= 2 and cls._is_percentage(tree.left)
+
+    @classmethod
+    def _translate_tree(cls, tree: _Operand | _Operation, excel: Excel, context: Context) -> str:
         from excel2pycl.src.translators.operand_token_translator import OperandTokenTranslator
         from excel2pycl.src.translators.operator_sub_token_translator import OperatorSubTokenTranslator
 
-        operator, left_operand, left_brackets, right_brackets, right_operand = token.operator, token.left_operand, \
-            None, None, None
+        if isinstance(tree, _Operand):
+            signs = ''.join([OperatorSubTokenTranslator.translate(sign, excel, context) for sign in tree.signs])
 
-        if isinstance(token, ExpressionToken):
-            left_brackets, right_brackets, right_operand = token.left_brackets, token.right_brackets, \
-                  token.right_operand
+            if tree.brackets:
+                return f'{signs}({cls.translate(tree.token, excel, context)})'
 
-        if left_operand:
-            token_translator = ExpressionTokenTranslator if \
-                left_operand.__class__ in [ExpressionToken, OneLeftOperandExpressionToken] \
-                else OperandTokenTranslator
+            if isinstance(tree.token, OneLeftOperandExpressionToken):
+                operand = OperandTokenTranslator.translate(tree.token.left_operand, excel, context)
+                return f'{signs}self._normalize_float_number({operand} / 100)'
 
-            left_operand = token_translator.translate(left_operand, excel, context)
-            left_operand = f'({left_operand})' if left_brackets else left_operand
+            return f'{signs}{OperandTokenTranslator.translate(tree.token, excel, context)}'
 
-        if right_operand:
-            token_translator = ExpressionTokenTranslator \
-                if right_operand.__class__ is ExpressionToken else OperandTokenTranslator
+        left_operand = cls._translate_tree(tree.left, excel, context)
+        right_operand = cls._translate_tree(tree.right, excel, context)
+        operator = OperatorSubTokenTranslator.translate(tree.operator, excel, context)
 
-            right_operand = token_translator.translate(right_operand, excel, context)
-            right_operand = f'({right_operand})' if right_brackets else right_operand
+        # попытка заставить сравнение работать так, как надо
+        if isinstance(tree.operator, cls._COMPARE_TOKENS):
+            return f'self._compare("{operator}", {left_operand}, {right_operand})'
 
-        if operator:
-            if operator.__class__ is AmpersandToken:
+        if isinstance(tree.operator, AmpersandToken):
+            # a chain of ampersands is already a text on the left
+            if not (isinstance(tree.left, _Operation) and isinstance(tree.left.operator, AmpersandToken)):
                 left_operand = f'self._excel_value_to_string({left_operand})'
-                right_operand = f'self._excel_value_to_string({right_operand})'
 
-            # попытка заставить сравнение работать так, как надо
-            compare_tokens = (EqOperatorToken, NotEqOperatorToken, GtOperatorToken, GtOrEqualOperatorToken,
-                              LtOperatorToken, LtOrEqualOperatorToken)
+            return f'{left_operand}{operator}self._excel_value_to_string({right_operand})'
 
-            if isinstance(operator, compare_tokens) and left_operand and right_operand:
-                operator = OperatorSubTokenTranslator.translate(operator, excel, context)
-                return f'self._compare("{operator}", {left_operand}, {right_operand})'
+        if cls._is_percentage(tree.left):
+            return f'self._normalize_float_number({left_operand}{operator}{right_operand})'
 
-            if operator.__class__ is PercentToken:
-                left_operand = f'self._normalize_float_number({left_operand} / 100)'
-                operator = None
-            else:
-                operator = OperatorSubTokenTranslator.translate(operator, excel, context)
-
-            if isinstance(token.left_operand, OneLeftOperandExpressionToken) and \
-                    isinstance(token.left_operand.operator, PercentToken):
-                return f"self._normalize_float_number({left_operand or ''}{operator or ''}{right_operand or ''})"
-
-        return f"{left_operand or ''}{operator or ''}{right_operand or ''}"
+        return f'{left_operand}{operator}{right_operand}'
